@@ -144,8 +144,12 @@ func decodeGoCamelCase(s string, isWordBoundary func(rune) bool) (DecodedIdentif
 		}
 	}
 
-	if last := strings.ToLower(s[lastBoundary:]); len(last) > 0 {
-		words = append(words, strings.ToLower(s[lastBoundary:]))
+	if last := s[lastBoundary:]; len(last) > 0 {
+		if last == strings.ToUpper(last) {
+			words = append(words, extractInitialisms(last)...)
+		} else {
+			words = append(words, strings.ToLower(last))
+		}
 	}
 
 	return words, nil
